@@ -20,6 +20,7 @@ import (
 	"sort"
 	"strconv"
 	"strings"
+	"sync"
 	"testing"
 	"time"
 
@@ -386,6 +387,14 @@ func firstN(s string, n int) string {
 	return s
 }
 
+var straceOnce sync.Once
+var straceErr error
+
+func straceAvailable() bool {
+	straceOnce.Do(func() { straceErr = inject.Available() })
+	return straceErr == nil
+}
+
 // ---- the fault oracle --------------------------------------------------------
 
 type outcome struct {
@@ -476,7 +485,7 @@ func runScenario(sc Scenario, only *Fault, out *outcome) (msg string, at *Fault,
 	defer os.RemoveAll(work)
 	r := &runner{sc: sc, tmpl: filepath.Join(work, "tmpl"), work: work}
 	needStrace := sc.Left.Kind == "kill" || only == nil || only.Mode != "fsize"
-	straceOK := inject.Available() == nil
+	straceOK := straceAvailable()
 	if needStrace && !straceOK && sc.Left.Kind == "kill" {
 		return "", nil, "strace unavailable"
 	}
